@@ -165,7 +165,7 @@ def execute(scenario, seed, overrides=None):
                     e["_c13"] = True
                     S.reg.register(e["svc"])
             before = {i: (e.created, e.ttl) for i, e in S.hm.cache.e.items()} if False else None
-            msg, eff = S.hm.on_rx(t, rsock.label, data, v6sock=rsock.family == AF_INET6)
+            msg, eff = S.hm.on_rx(t, rsock.label, data, v6sock=rsock.family == AF_INET6, src=addr)
             if msg is None:
                 return
             if eff is not None:
